@@ -160,12 +160,32 @@ func c04r1(c *core.Ctx) {
 						res = true // the derived key passed by value (to a concatenation helper)
 					}
 					if a := allocOf(pt); a != nil {
+						// the store that reaches this use: the variable may be used again for a later derivation
+						var stores []*ssa.Store
 						for _, r := range *a.Referrers() {
 							if st, ok := r.(*ssa.Store); ok && st.Addr == ssa.Value(a) {
-								if core.CallResult(st.Val, 0, func(ci ssa.Instruction) bool { return ci == h }) != nil {
-									res = true
+								stores = append(stores, st)
+							}
+						}
+						for _, st := range stores {
+							if core.CallResult(st.Val, 0, func(ci ssa.Instruction) bool { return ci == h }) == nil {
+								continue
+							}
+							if len(stores) > 1 {
+								if !instrDominates(st, i) {
+									continue
+								}
+								overwritten := false
+								for _, st2 := range stores {
+									if st2 != st && instrDominates(st, st2) && instrDominates(st2, i) {
+										overwritten = true
+									}
+								}
+								if overwritten {
+									continue
 								}
 							}
+							res = true
 						}
 					}
 				}
